@@ -334,3 +334,70 @@ class Check:
 
 def rng(extra=0):
     return random.Random(seed() * 1000003 + extra)
+
+
+# ----------------------------------------------------------------------------
+# Verilated harnesses
+# ----------------------------------------------------------------------------
+def build_verilated(name, vsources, top, harness, prefix="Vdut", vflags=None, cflags="", timeout=1800, extra_cpp=None):
+    """verilator --cc --exe --build of `vsources` (relative to /repo) with harness/<harness>, cached by source hash.
+    Generates model_access.h (R_PC/R_A/R_B/R_O/MEMQ macros) from the generated headers, because the name
+    of a register depends on whether Verilator kept the module hierarchy."""
+    vs = [os.path.join(REPO, v) for v in vsources]
+    hs = [os.path.join(HARNESS, harness)] + [os.path.join(HARNESS, e) for e in (extra_cpp or [])]
+    key = file_hash(vs + hs + repo_sources() + [os.path.join(HARNESS, "safe.hpp")], extra=name + top + prefix + str(vflags) + cflags)
+    bdir = os.path.join(CACHE, "vl-%s-%s" % (name, key))
+    exe = os.path.join(bdir, name)
+    if os.path.exists(exe):
+        return exe
+    for old in glob.glob(os.path.join(CACHE, "vl-%s-*" % name)):
+        if time.time() - os.path.getmtime(old) > 3 * 3600:
+            shutil.rmtree(old, ignore_errors=True)
+    tmp = bdir + ".tmp%d" % os.getpid()
+    shutil.rmtree(tmp, ignore_errors=True); os.makedirs(tmp)
+    # pass 1: generate C++ only, to learn the signal names
+    base = ["verilator", "--cc", "--Mdir", tmp, "--prefix", prefix, "--top-module", top, "--public-flat-rw", "-Wno-fatal"] + (vflags or []) + vs
+    p = sh(base, timeout=600)
+    if p.returncode != 0:
+        raise MachineryError("verilator failed: %s\n%s" % (" ".join(base), (p.stdout + p.stderr).decode(errors="replace")[-3000:]))
+    hdrs = {os.path.basename(h): open(h).read() for h in glob.glob(os.path.join(tmp, "*.h"))}
+
+    def find(sig):
+        """C++ expression for a (possibly hierarchical or flattened) signal of model `t`"""
+        root = hdrs[prefix + "___024root.h"]
+        for hn, txt in sorted(hdrs.items()):
+            m = re.search(r"[ \t]((?:\w+__DOT__)*%s);" % sig, txt)
+            if not m:
+                continue
+            member = m.group(1)
+            if hn == prefix + "___024root.h":
+                return "(t).rootp->%s" % member
+            if not hn.startswith(prefix + "_") or hn.startswith(prefix + "__"):
+                continue
+            mod = hn[len(prefix) + 1:-2]              # hex / processor / memory
+            if re.search(r"%s_%s\* %s;" % (prefix, mod, mod), root):
+                return "(t).rootp->%s->%s" % (mod, member)   # direct child of the root (top module)
+            if mod in ("processor", "memory"):
+                return "(t).rootp->hex->u_%s->%s" % (mod, member)
+        return None
+    acc = {"R_PC": find("pc_q"), "R_A": find("areg_q"), "R_B": find("breg_q"), "R_O": find("oreg_q"), "MEMQ": find("memory_q"), "N_INSTR": find("instr")}
+    with open(os.path.join(tmp, "model_access.h"), "w") as f:
+        f.write("// generated by lib/vlib.py build_verilated\n#include \"%s.h\"\n#include \"%s___024root.h\"\n" % (prefix, prefix))
+        for hn in hdrs:
+            if hn.startswith(prefix + "_") and not hn.startswith(prefix + "__") and hn != prefix + "___024root.h":
+                f.write("#include \"%s\"\n" % hn)
+        f.write("typedef %s MODEL;\n" % prefix)
+        for k, v in acc.items():
+            if v:
+                f.write("#define %s(t) (%s)\n" % (k, v))
+    cf = "-O1 -std=c++17 -DHEX_VERIF -I%s -I%s -I%s %s" % (REPO, HARNESS, tmp, cflags)
+    cmd = ["verilator", "--cc", "--exe", "--build", "-j", str(NCPU), "--Mdir", tmp, "--prefix", prefix, "--top-module", top, "--public-flat-rw", "-Wno-fatal",
+           "-CFLAGS", cf, "-o", name] + (vflags or []) + vs + hs + [os.path.join(REPO, "hex.cpp")]
+    p = sh(cmd, timeout=timeout)
+    if p.returncode != 0 or not os.path.exists(os.path.join(tmp, name)):
+        raise MachineryError("verilated harness build failed: %s\n%s" % (" ".join(cmd), (p.stdout + p.stderr).decode(errors="replace")[-4000:]))
+    try:
+        os.rename(tmp, bdir)
+    except OSError:
+        shutil.rmtree(tmp, ignore_errors=True)      # someone else finished first
+    return exe
